@@ -1853,7 +1853,9 @@ class Network(Cached):
 
         :rtype: 1d numpy array [node] of floats between 0 and 1
         """
-        C = np.array(self.graph.transitivity_local_undirected())
+        #  collapse reciprocated links, igraph would count them as multi-edges
+        graph = self.graph.as_undirected() if self.directed else self.graph
+        C = np.array(graph.transitivity_local_undirected())
         C[np.isnan(C)] = 0
         return C
 
@@ -2223,7 +2225,9 @@ class Network(Cached):
 
         :rtype: float between 0 and 1
         """
-        return self.graph.transitivity_undirected()
+        #  collapse reciprocated links, igraph would count them as multi-edges
+        graph = self.graph.as_undirected() if self.directed else self.graph
+        return graph.transitivity_undirected()
 
     def higher_order_transitivity(self, order, estimate=False):
         """
